@@ -859,6 +859,10 @@ func (dru *dirRepoUpload) Write(p []byte) (int, error) {
 func (dru *dirRepoUpload) Close() error {
 	dru.mu.Lock()
 	defer dru.mu.Unlock()
+	if dru.fh == nil {
+		// the session was completed, cancelled, evicted or expired while the request was in progress
+		return fmt.Errorf("session expired %s: %w", dru.sessionID, types.ErrNotFound)
+	}
 	err := dru.fh.Close()
 	if err != nil {
 		return errors.Join(err, os.Remove(dru.filename))
